@@ -1,5 +1,6 @@
 import M3d.Gen.Kernels
 import M3d.Model.Transform
+import M3d.Model.Transform2
 import Mathlib.Tactic.Ring
 import Mathlib.Tactic.SplitIfs
 import Mathlib.Algebra.Order.Field.Basic
@@ -112,5 +113,77 @@ theorem mulColumnInv2 (m : M2 K) (c : V2 K) (d : K) :
     model2d.Matrix2_MulColumnInv (gm2 m) (g2 c) d = g2 (m.mulColumnInv c d) := rfl
 theorem mul2m (m n : M2 K) : model2d.Matrix2_Mul (gm2 m) (gm2 n) = gm2 (m.mul n) := rfl
 theorem transpose2 (m : M2 K) : model2d.Matrix2_Transpose (gm2 m) = gm2 m.transpose := rfl
+
+/-! ## the 2-D instance (`model2d/transform.go`, `model2d/coords.go`) against `M3d/Model/Transform2.lean` -/
+theorem add2 (a b : V2 K) : model2d.Coord_Add (g2 a) (g2 b) = g2 (a.add b) := rfl
+theorem scale2 (a : V2 K) (s : K) : model2d.Coord_Scale (g2 a) s = g2 (a.scale s) := rfl
+theorem mul2 (a b : V2 K) : model2d.Coord_Mul (g2 a) (g2 b) = g2 (a.mul b) := rfl
+theorem recip2 (a : V2 K) : model2d.Coord_Recip (g2 a) = g2 a.recip := rfl
+theorem dot2 (a b : V2 K) : model2d.Coord_Dot (g2 a) (g2 b) = a.dot b := rfl
+theorem min2 (a b : V2 K) : model2d.Coord_Min (g2 a) (g2 b) = g2 (a.min b) := by
+  simp [model2d.Coord_Min, g2, V2.min, mn_eq]
+theorem max2 (a b : V2 K) : model2d.Coord_Max (g2 a) (g2 b) = g2 (a.max b) := by
+  simp [model2d.Coord_Max, g2, V2.max, mx_eq]
+theorem abs2 (a : V2 K) : model2d.Coord_Abs (g2 a) = g2 a.abs := by
+  simp [model2d.Coord_Abs, g2, V2.abs, absS_eq]
+theorem sub2 (a b : V2 K) : model2d.Coord_Sub (g2 a) (g2 b) = g2 (a.sub b) := by
+  cases a; cases b
+  simp [model2d.Coord_Sub, model2d.Coord_Add, model2d.Coord_Scale, g2, V2.sub]
+  try (refine ⟨?_, ?_⟩ <;> ring)
+
+theorem translate_apply2 (o c : V2 K) : model2d.Translate_Apply ⟨g2 o⟩ (g2 c) = g2 ((Xf2.translate o).apply c) := rfl
+theorem translate_bounds2 (o lo hi : V2 K) :
+    model2d.Translate_ApplyBounds ⟨g2 o⟩ (g2 lo) (g2 hi) =
+      (g2 ((Xf2.translate o).applyBounds lo hi).1, g2 ((Xf2.translate o).applyBounds lo hi).2) := rfl
+theorem translate_distance2 (o : V2 K) (d : K) :
+    model2d.Translate_ApplyDistance ⟨g2 o⟩ d = (Xf2.translate o).applyDistance d := rfl
+
+theorem scale_apply2 (s : K) (c : V2 K) : model2d.Scale_Apply ⟨s⟩ (g2 c) = g2 ((Xf2.scale s).apply c) := rfl
+theorem scale_bounds2 (s : K) (lo hi : V2 K) :
+    model2d.Scale_ApplyBounds ⟨s⟩ (g2 lo) (g2 hi) =
+      (g2 ((Xf2.scale s).applyBounds lo hi).1, g2 ((Xf2.scale s).applyBounds lo hi).2) := by
+  simp only [model2d.Scale_ApplyBounds, Xf2.applyBounds, scale2, min2, max2]
+theorem scale_distance2 (s d : K) : model2d.Scale_ApplyDistance ⟨s⟩ d = (Xf2.scale s).applyDistance d := by
+  simp only [model2d.Scale_ApplyDistance, Xf2.applyDistance, absS_eq]
+
+theorem vecScale_apply2 (v c : V2 K) : model2d.VecScale_Apply ⟨g2 v⟩ (g2 c) = g2 ((Xf2.vecScale v).apply c) := rfl
+theorem vecScale_bounds2 (v lo hi : V2 K) :
+    model2d.VecScale_ApplyBounds ⟨g2 v⟩ (g2 lo) (g2 hi) =
+      (g2 ((Xf2.vecScale v).applyBounds lo hi).1, g2 ((Xf2.vecScale v).applyBounds lo hi).2) := by
+  simp only [model2d.VecScale_ApplyBounds, Xf2.applyBounds, mul2, min2, max2]
+
+theorem matrix_apply2 (m : M2 K) (c : V2 K) :
+    model2d.Matrix2Transform_Apply ⟨gm2 m⟩ (g2 c) = g2 ((Xf2.matrix m).apply c) := rfl
+theorem ortho_distance2 (m : M2 K) (d : K) :
+    model2d.orthoMatrix2Transform_ApplyDistance ⟨⟨gm2 m⟩⟩ d = (Xf2.ortho m).applyDistance d := rfl
+
+/-! ## `Normalize`, `MaxCoord`, `OrthoBasis` and the rotation matrices (`math.Sqrt` = `sq`, `math.Cos/Sin` = the
+uninterpreted `HasLibm.cos/sin`): the generated `NewMatrix3Rotation` / `NewMatrix2Rotation` are `rotation3` / `M2.rotation`
+of the model, i.e. exactly the matrices `M3d.C05.rotation3_orthogonal` / `rotation2_orthogonal` are about. -/
+@[reducible] def sqrtOf (sq : K → K) : GenPrelude.HasSqrt K := ⟨sq⟩
+variable (sq : K → K)
+
+theorem normalize3 (a : V3 K) :
+    (letI := sqrtOf sq; model3d.Coord3D_Normalize (g3 a)) = g3 (a.normalize sq) := rfl
+theorem normalize2 (a : V2 K) :
+    (letI := sqrtOf sq; model2d.Coord_Normalize (g2 a)) = g2 (a.normalize sq) := rfl
+theorem maxCoord3 (a : V3 K) : model3d.Coord3D_MaxCoord (g3 a) = a.maxCoord := by
+  simp only [model3d.Coord3D_MaxCoord, V3.maxCoord, gt_iff_lt, decide_eq_true_eq]
+theorem maxCoord2 (a : V2 K) : model2d.Coord_MaxCoord (g2 a) = a.maxCoord := by
+  simp only [model2d.Coord_MaxCoord, V2.maxCoord, mx_eq]
+
+theorem orthoBasis3 (a : V3 K) :
+    (letI := sqrtOf sq; model3d.Coord3D_OrthoBasis (g3 a)) = (g3 (orthoBasis sq a).1, g3 (orthoBasis sq a).2) := by
+  simp only [model3d.Coord3D_OrthoBasis, orthoBasis, absS_eq, gt_iff_lt, Bool.and_eq_true, decide_eq_true_eq]
+  split_ifs <;> rfl
+
+theorem rotation3_eq [GenPrelude.HasLibm K] (axis : V3 K) (θ : K) :
+    (letI := sqrtOf sq; model3d.NewMatrix3Rotation (g3 axis) θ) =
+      gm3 (rotation3 sq axis (GenPrelude.HasLibm.cos θ) (GenPrelude.HasLibm.sin θ)) := by
+  simp only [model3d.NewMatrix3Rotation, orthoBasis3, rotation3, rotationIn, rotX]
+  rfl
+
+theorem rotation2_eq [GenPrelude.HasLibm K] (θ : K) :
+    model2d.NewMatrix2Rotation θ = gm2 (M2.rotation (GenPrelude.HasLibm.cos θ) (GenPrelude.HasLibm.sin θ)) := rfl
 
 end M3d.KernelsTie.Transform
